@@ -132,15 +132,15 @@ Section App.
       intros y x Hy Hx [ds [Hs Hin]].
       apply (waits_is_edge line apropos fuel ms2 ps2 d y x Hnd2 Hp2 (Hlt2 y Hy) (Hlt2 x Hx)).
       exists ds. split; [|assumption].
-      rewrite <- (same_edges line apropos fuel ms1 ms2 _ Hpm). assumption. }
+      rewrite <- (same_edges line apropos fuel ms1 ms2 _ _ Hpm). assumption. }
     assert (Hnd_s1 : NoDup s1).
     { eapply Permutation_NoDup; [apply Permutation_sym; exact Hs1|]. eapply NoDup_map_inv; exact Hndm. }
     (* every address of the file has its scan *)
-    assert (Hscan : forall m, In m ms1 -> exists ds, scan_deps apropos (map_keys line ms1) fuel (fst m) = Some ds).
+    assert (Hscan : forall m, In m ms1 -> exists ds, scan_deps apropos (map_keys line ms1) fuel (fst m) (fst m) = Some ds).
     { intros m Hm. rewrite pushes_unfold in Hp1. destruct (acc_some _ _ _ _ _ _ Hp1) as [_ Hall].
       assert (Hk : In (fst m) (map_keys line ms1)) by (apply in_map_keys; apply in_map; assumption).
       destruct (Hall _ Hk) as [l' [Hl' _]]. unfold push_of in Hl'.
-      destruct (scan_deps apropos (map_keys line ms1) fuel (fst m)) as [ds|]; [exists ds; reflexivity | discriminate]. }
+      destruct (scan_deps apropos (map_keys line ms1) fuel (fst m) (fst m)) as [ds|]; [exists ds; reflexivity | discriminate]. }
     (* a declared dependency between two lines of the file is an edge *)
     assert (Hdecl : forall x y i vs j ws, In x ms1 -> In y ms1 ->
               line_target a (snd x) = Some (i, vs) -> line_target a (snd y) = Some (j, ws) ->
@@ -154,6 +154,10 @@ Section App.
       destruct (DECL i j Hi Hj Hm) as (ic & m & e & Hic & Hap & He & Hrel).
       destruct (Hscan y Hy) as [ds Hds]. unfold W, waits_for. exists ds. split; [assumption|].
       rewrite Fx, <- Hpi. rewrite Fy, <- Hpj in Hds.
+      assert (Hne : p_path (port_at a i) <> p_path (port_at a j)).
+      { intro Hc. pose proof (find_port_at a i (w_paths a WF) Hi) as F1.
+        pose proof (find_port_at a j (w_paths a WF) Hj) as F2. rewrite Hc in F1.
+        assert (i = j) by congruence. subst j. exact (not_self a WF i Hi Hm). }
       eapply scan_complete; try eassumption.
       rewrite has_key_map_keys. apply existsb_exists. exists (fst x). split; [apply in_map; assumption|].
       rewrite Fx, <- Hpi. apply streqb_true. reflexivity. }
